@@ -42,3 +42,14 @@ for d in /verif/seeded/S2-C*; do
   esac
   m $d/patch.diff $p $extra
 done
+# round 3
+for d in /verif/seeded/S3-C*; do
+  s=$(basename $d); p=${s#S3-}; p=${p%%-*}
+  extra=""
+  case $s in
+    S3-C02-1) extra="C14 C19 C10";; S3-C02-2) extra="C06";; S3-C04-2) extra="C20";; S3-C06-2) extra="C18";;
+    S3-C05-1) extra="C08";; S3-C10-1) extra="C16";; S3-C11-2) extra="C18";; S3-C12-2) extra="C15";; S3-C15-2) extra="C04";;
+  esac
+  m $d/patch.diff $p $extra
+done
+m REVERT:60d0e05 C16 C18
